@@ -191,7 +191,18 @@ class Tracer:
         self.flow = None
 
     # ---- user functions -------------------------------------------------
+    def _wallclock_guard(self):
+        # no single run may keep a check busy for ever (a tree under test may make a schedule crawl):
+        # after two minutes the run is cut like a run that exhausted its kernel budget ("truncated", no verdict)
+        import time as _t
+        t0 = getattr(self, "_t0", None)
+        if t0 is None:
+            self._t0 = _t.time()
+        elif _t.time() - t0 > 120.0:
+            raise minipcn_stub.KernelBudgetExceeded("wall clock")
+
     def log_prior(self, samples):
+        self._wallclock_guard()
         x = to_np(samples.x)
         self.kp += 1
         self.ev.append({"t": "prior", "batch": self.ids.of(x), "n": int(len(x)), "k": self.kp,
@@ -204,6 +215,7 @@ class Tracer:
         return samples.xp.asarray(val, dtype=samples.dtype)
 
     def log_likelihood(self, samples):
+        self._wallclock_guard()
         x = to_np(samples.x)
         self.k += 1
         lp = getattr(samples, "log_prior", None)
@@ -652,6 +664,7 @@ def _rerun(c, prev, role):
     sampler = prev["sampler"]
     ids = prev["ids"]
     tr.ev = []
+    tr._t0 = None
     tr.k = tr.kp = 0
     tr.payloads = []
     tr.fault_k = c["fault_k"]
